@@ -329,9 +329,10 @@ func cmdCheck(args []string) int {
 		opts := symx.ExploreOpts{Workers: *workers, MaxPaths: mp, SolverKind: *solverKind, Cfg: mcfg, SampleN: 3, Harness: h.Func}
 		tb := c.Budgets.TimeBudgetS
 		if tb == 0 {
-			tb = 600
+			// generous: the budget only turns a runaway into INCONCLUSIVE, it must not trip on a loaded machine
+			tb = 1800
 			if *tier == "thorough" {
-				tb = 3600
+				tb = 10800
 			}
 		}
 		opts.Deadline = time.Now().Add(time.Duration(tb) * time.Second)
@@ -598,7 +599,9 @@ func TestZZVerifReplay(t *testing.T) {
 	os.WriteFile(ovFile, ovb, 0o644)
 	cmd := exec.Command("go", "test", "-tags", "verif", "-vet=off", "-count=1", "-overlay", ovFile, "-run", "^TestZZVerifReplay$", "-timeout", "300s", "./"+rel)
 	cmd.Dir = filepath.Join(repoDir, c.Dir)
-	cmd.Env = append(goEnv(), "VERIF_REPLAY="+replayPath)
+	scratch := filepath.Join(tmp, "scratch") // harnesses create their scratch directories here
+	os.MkdirAll(scratch, 0o755)
+	cmd.Env = append(goEnv(), "VERIF_REPLAY="+replayPath, "TMPDIR="+scratch)
 	out, err := cmd.CombinedOutput()
 	s := string(out)
 	if v.Kind == "panic" {
